@@ -424,6 +424,8 @@ def truth(p, call_effect):
     if r[0] != "sym":
         return None
     c = p.cons.get(r[1])
+    if c is None and r[1][0] == "cmp" and r[1][1] == "Eq":
+        c = p.cons.get(("cmp", "Eq", r[1][3], r[1][2]))
     if c is None:
         return None
     if c[0] == "eq":
